@@ -44,6 +44,7 @@ ALPHABET = [
     ("ip address 10.1.2.3 255.255.255.0", {"ip": [2]}),
     (" ip address 010.001.002.003 255.255.255.000 wildcard 0.0.0.063", {"ip": [2]}),
     (" ipv6 address 2001:db8::1/64 eui", {"ip": [2]}),
+    ("ntp server 010.200.001.007 source 10.200.1.7 peer 10.201.1.7", {"ip": [6]}),
     ("password " + S1, {"pwd": [1]}),
     ("  snmp-server community " + S2 + " ro ", {"pwd": [2]}),
     ("enable password " + S1, {"pwd": [2]}),
@@ -76,7 +77,8 @@ def make(F, salt="saltForTest"):
         return FileAnonymizer(anon_pwd=F["pwd"], anon_ip=F["ip"] and not F["undo"], salt=salt,
                               sensitive_words=list(WORDS) if F["word"] else None,
                               undo_ip_anon=F["ip"] and F["undo"],
-                              as_numbers=list(ASNS) if F["as"] else None)
+                              as_numbers=list(ASNS) if F["as"] else None,
+                              preserve_networks=["10.200.0.0/16"])
 
 
 def stream(fa, text):
